@@ -87,7 +87,12 @@ def generate(seed, run, tier):
     for i in range(len(ops) + 1):
         for p in pos:
             if p == i:
-                out.append({'op': 'crash_restart', 'stale_example': rf.chance(0.3)})
+                cr = {'op': 'crash_restart', 'stale_example': rf.chance(0.3)}
+                if rf.chance(0.25):
+                    # the restarted script looks at the fresh wrapper before it loads the checkpoint
+                    cr['prologue'] = [{'op': rf.choice(['summary', 'str', 'cost', 'export', 'nograd_eval_forward'])}
+                                      for _ in range(rf.randint(1, 2))]
+                out.append(cr)
         if i < len(ops):
             out.append(ops[i])
     return {'cfg': cfg, 'ops': out, 'run_seed': mix(seed, ID, base_run, 'run')}
@@ -122,7 +127,7 @@ def shrink_candidates(case):
         yield c
     # simplify ops
     for i, o in enumerate(case['ops']):
-        for key in ('abort', 'stale_example', 'mid'):
+        for key in ('abort', 'stale_example', 'mid', 'prologue'):
             if o.get(key):
                 c = json.loads(json.dumps(case))
                 c['ops'][i].pop(key)
